@@ -120,7 +120,19 @@ def observe_ds(ds, take=None):
 
 def observe(api, timeout=20.0):
     """Observation of one API program; a program that does not come back
-    within `timeout` seconds is reported as build = 'HANG'."""
+    within `timeout` seconds - and, tried again, not within three times that
+    (a loaded machine is not a hang) - is reported as build = 'HANG'."""
+    for t in (timeout, 3 * timeout):
+        try:
+            r = _observe_once(api, t)
+        except ObserveTimeout:          # the alarm went off inside a `finally`
+            r = None
+        if r is not None:
+            return r
+    return refused('HANG')
+
+
+def _observe_once(api, timeout):
     import signal
     old = signal.signal(signal.SIGALRM, _alarm)
     signal.setitimer(signal.ITIMER_REAL, timeout)
@@ -136,7 +148,7 @@ def observe(api, timeout=20.0):
             take = api['take'] if api['op'] == 'cycle' else None
             return observe_ds(ds, take)
     except ObserveTimeout:
-        return refused('HANG')
+        return None
     finally:
         signal.setitimer(signal.ITIMER_REAL, 0)
         signal.signal(signal.SIGALRM, old)
